@@ -13,7 +13,7 @@ func init() {
 			{Name: "argon-memory-differs", File: "wallet/password.go", Old: "func (h *passwordHash) SetFromJSON(password string, params argon2Params) error {\n\th.salt = params.Salt\n", New: "func (h *passwordHash) SetFromJSON(password string, params argon2Params) error {\n\th.salt = params.Salt[:len(params.Salt):len(params.Salt)]\n", ExpectKeySub: "SetFromJSON"},
 			{Name: "open-in-place", File: "wallet/crypto.go", Old: "stream.Open(nil,", New: "stream.Open(cipherText[:0],", ExpectKeySub: "aesGCMDecrypt"},
 			{Name: "hardened-guard-dropped", File: "wallet/derivation.go", Old: "\tif i < FirstHardenedIndex {\n\t\treturn nil, ErrNoPublicDerivation\n\t}\n", New: "", ExpectKeySub: "derive"},
-			{Name: "nonce-not-stored", File: "wallet/keystore.go", Old: "\t\t\tAesNonce:   nonce,", New: "\t\t\tAesNonce:   derivedKey.salt,", ExpectKeySub: "AesNonce"},
+			{Name: "nonce-not-stored", File: "wallet/keystore.go", Old: "\t\t\tAesNonce:   nonce,", New: "\t\t\tAesNonce:   nonce[:0],", ExpectKeySub: "AesNonce"},
 			{Name: "wrong-password-returns-data", File: "wallet/keyfile.go", Old: "\tif err != nil {\n\t\treturn nil, ErrWrongPassword\n\t}\n\n\treturn keyStoreFromEntropy(entropy)", New: "\tif err != nil && len(entropy) == 0 {\n\t\treturn nil, ErrWrongPassword\n\t}\n\n\treturn keyStoreFromEntropy(entropy)", ExpectKeySub: "Decrypt"},
 			{Name: "base-address-index-1", File: "wallet/keystore.go", Old: "ks.DeriveForIndexPath(0)", New: "ks.DeriveForIndexPath(1)", ExpectKeySub: "keyStoreFromEntropy"},
 			{Name: "random-in-derivation", File: "wallet/derivation.go", Old: "\tif i < FirstHardenedIndex {\n\t\treturn nil, ErrNoPublicDerivation\n\t}\n", New: "\tif i < FirstHardenedIndex {\n\t\treturn nil, ErrNoPublicDerivation\n\t}\n\t_ = GetEntropyCSPRNG(1)\n", ExpectKeySub: "GetEntropyCSPRNG"},
@@ -80,7 +80,7 @@ func runC19(r *Run) {
 	r.Has(tk, "store new(wallet.KeyPair).Address = types.PubKeyToAddress(ed25519.GenerateKey(bytes.NewReader(recv.Key))#0)", "the address is derived from the public key of that pair")
 	r.Has(tk, "store new(wallet.KeyPair).Public = ed25519.GenerateKey(bytes.NewReader(recv.Key))#0", "public key of that pair")
 	r.Has(tk, "store new(wallet.KeyPair).Private = ed25519.GenerateKey(bytes.NewReader(recv.Key))#1", "private key of that pair")
-	r.Returns("wallet.VerifySignature", []string{"false, errors.Errorf(\"ed25519: bad public key length; length=%v\",list(len(a0)))", "ed25519.Verify(a0,a1,a2), nil"}, "verification is ed25519.Verify(public key, message, signature)")
+	r.Returns("wallet.VerifySignature", []string{"false, errors.Errorf(…)", "ed25519.Verify(a0,a1,a2), nil"}, "verification is ed25519.Verify(public key, message, signature)")
 	// no randomness / clock on the deterministic side
 	reg := r.Region("DERIVE", []string{"wallet.keyStoreFromEntropy", "wallet.DeriveForPath", "wallet.newMasterKey", "wallet.(*key).derive", "wallet.(key).toKeyPair", "wallet.(*KeyFile).Decrypt", "wallet.(*KeyStore).DeriveForFullPath", "wallet.(*KeyStore).DeriveForIndexPath"}, false)
 	r.Determinism("DERIVE", reg, map[string]string{}, "mnemonic, seed, key pairs and addresses are a deterministic function of entropy and index")
